@@ -36,7 +36,7 @@ def proj(m):
     return out
 
 
-def run_filter(h, words, dct, ncat, cats, rng, position_coded, dup=False, single=False, neginf=0.0, neg8=None, layout='C'):
+def run_filter(h, words, dct, ncat, cats, rng, position_coded, dup=False, single=False, neginf=0.0, neg8=None, layout='C', cdict_obj=None):
     from depccg.types import Token, ScoringResult
     doc = [[Token.of_word(w) for w in sent] for sent in words]
     scores = []
@@ -69,8 +69,8 @@ def run_filter(h, words, dct, ncat, cats, rng, position_coded, dup=False, single
     kw = {} if neg8 is None else {'large_negative_value': neg8 / 8.0}
     tag_in = [proj(s.tag_scores) for s in scores]
     dep_in = [proj(s.dep_scores) for s in scores]
-    cdict = {w: [cats[c - 1] for c in cs] for w, cs in dct.items()}
-    if dup:
+    cdict = {w: [cats[c - 1] for c in cs] for w, cs in dct.items()} if cdict_obj is None else cdict_obj
+    if dup and cdict_obj is None:
         # a category listed twice for a word means the same as listing it once
         cdict = {w: cs + cs[:1] for w, cs in cdict.items()}
     ev = {'e': 'filter', 'words': words, 'dict': {w: sorted(cs) for w, cs in dct.items()}, 'ncat': ncat, 'tag_in': tag_in, 'dep_in': dep_in,
@@ -129,6 +129,38 @@ def run(tier):
                         neginf=rng.choice([0.0, 0.0, 0.1, 0.4]), neg8=rng.choice([None, None, -32768, -8000]),
                         layout=rng.choice(['C', 'C', 'F', 'slice', 'strided', 'T']))
         add(ev, {'words': words, 'dict': {w: len(c) for w, c in dct.items()}, 'ncat': ncat, 'src': 'random'})
+    # call histories on one dictionary object: the same object with the category list in another order, and edited in place
+    n_hist = 0
+    for _ in range(60 if tier == 'quick' else 600):
+        ncat = rng.choice([4, 6, 10])
+        cats = tg[:ncat]
+        words = [[rng.choice(vocab) for _ in range(rng.randint(1, 5))] for _ in range(rng.randint(1, 3))]
+        dct = {w: sorted(rng.sample(range(1, ncat + 1), rng.randint(1, ncat - 1))) for w in rng.sample(vocab, rng.randint(2, 6))}
+        obj = {w: [cats[c - 1] for c in cs] for w, cs in dct.items()}
+        steps = []
+        steps.append(('first call', dct, cats))
+        rev = cats[::-1]
+        steps.append(('same dictionary object, category list reversed', {w: sorted(ncat + 1 - c for c in cs) for w, cs in dct.items()}, rev))
+        steps.append(('same object, original order again', dct, cats))
+        for name, dd, cc in steps:
+            ev = run_filter(h, words, dd, ncat, cc, rng, False, cdict_obj=obj)
+            add(ev, {'words': words, 'dict': dd, 'ncat': ncat, 'src': 'history: ' + name})
+            n_hist += 1
+        # edit the object in place: a word added, a word removed, an entry replaced
+        d2 = dict(dct)
+        w_new = rng.choice([w for w in vocab if w not in d2] or [vocab[0]])
+        d2[w_new] = sorted(rng.sample(range(1, ncat + 1), 1))
+        obj[w_new] = [cats[c - 1] for c in d2[w_new]]
+        w_del = rng.choice([w for w in dct])
+        if w_del != w_new:
+            del d2[w_del]
+            del obj[w_del]
+        w_rep = rng.choice(list(d2))
+        d2[w_rep] = sorted(rng.sample(range(1, ncat + 1), rng.randint(1, ncat - 1)))
+        obj[w_rep][:] = [cats[c - 1] for c in d2[w_rep]]
+        ev = run_filter(h, words, d2, ncat, cats, rng, False, cdict_obj=obj)
+        add(ev, {'words': words, 'dict': d2, 'ncat': ncat, 'src': 'history: same object edited in place'})
+        n_hist += 1
     # shipped strings: well-formed, and dictionary categories belong to the inventory (by value)
     n_ship = 0
     dict_strings = set(inventory.shipped_strings()['cat_dict.en'])
